@@ -2132,4 +2132,53 @@ theorem tx1_rows_fresh {cfg : Cfg} {w w1 : World} {o : Op} {chs : List Change} (
       subst hc
       simp only; omega
 
+/-! ### the sweep does not touch young change records -/
+
+/-- no change record older than the threshold: the sweep is a no-op, whatever mode it runs in -/
+theorem sweep_young_noop (cfg : Cfg) (ord : List Nat → List Nat) (hord : ∀ l, (ord l).Perm l) (w : World)
+    (hy : ∀ r ∈ w.dids, ∀ v ∈ r.vers, v.pending ≠ none → ¬ (v.ts + cfg.threshold < w.now)) :
+    sweep cfg ord w = (w, "ok") := by
+  have hold : oldChanges cfg w = [] := by
+    unfold oldChanges
+    apply List.filter_eq_nil_iff.2
+    intro ch hch
+    rcases (mem_allChanges w ch).1 hch with ⟨r, hr, v, hv, p, hp, rfl⟩
+    simpa using hy r hr v hv (by rw [hp]; simp)
+  have hsw : sweepChanges cfg w = [] := by
+    unfold sweepChanges
+    rw [hold]
+    split
+    · apply List.filter_eq_nil_iff.2
+      intro ch _
+      simp
+    · rfl
+  unfold sweep
+  simp only [hsw, List.map_nil]
+  have : ord ([] : List Nat).eraseDups = [] := List.Perm.eq_nil (hord _)
+  rw [this]
+  rfl
+
+/-- a sweep that fires while an operation is in flight (its first transaction committed `d ≤ threshold` seconds ago, whatever
+    has been published so far) on a database that had no change records: nothing happens -/
+theorem in_flight_sweep_noop {cfg : Cfg} {w0 w1 : World} {o : Op} {chs : List Change}
+    (hnone : ∀ r ∈ w0.dids, ∀ v ∈ r.vers, v.pending = none) (ht : tx1 cfg w0 o = .ok (w1, chs))
+    (pub : Nat → List Content) (d : Nat) (hd : d ≤ cfg.threshold) (ord : List Nat → List Nat) (hord : ∀ l, (ord l).Perm l) :
+    sweep cfg ord (tick d { w1 with pub := pub }) = (tick d { w1 with pub := pub }, "ok") := by
+  apply sweep_young_noop cfg ord hord
+  intro r hr v hv hp
+  cases hpv : v.pending with
+  | none => exact absurd hpv hp
+  | some p =>
+    have := (tx1_pending hnone ht r hr v hv p hpv).2
+    have hnow : (tick d { w1 with pub := pub }).now = w1.now + d := rfl
+    have hw1 : w1.now = w0.now := by
+      by_cases hcr : ∃ s, o = .create s
+      · rcases hcr with ⟨s, rfl⟩
+        exact (tx1Create_ok (show tx1Create cfg w0 s = .ok (w1, chs) from ht)).2.2.2.1
+      · have hnc : ∀ s, o ≠ .create s := fun s he => hcr ⟨s, he⟩
+        rw [tx1_is_update cfg w0 o hnc] at ht
+        exact (tx1Update_ok ht).2.2.2.1
+    rw [hnow, hw1, this]
+    omega
+
 end Nuts.C13
